@@ -264,6 +264,7 @@ func hooksSite() string      { return hkSite }
 func rootBodyWith(sc *scenario, class func(i int, ops []cop) string) func() {
 	return func() {
 		mc.CapLimit = sc.CapLimit
+		mc.FileOpsInterleave = sc.Upgrades != "remote-ok-custom" // two agents = two legitimate store accessors
 		W = newWorld(sc)
 		w := W
 		upg := ""
